@@ -50,6 +50,7 @@ def judge(events, trace, spans, noise_label=True):
     e = rx.ends(spans)
     labels = set()
     n_valid = n_near = 0
+    cur_frame = 0            # reset value of the frame output; only a well-formed SOF may change it
     # nothing may be reported before the first packet ends
     for t in range(0, e[0] if e else len(trace)):
         if trace[t].nt or trace[t].nf:
@@ -65,6 +66,13 @@ def judge(events, trace, spans, noise_label=True):
         def what():
             return (f"packet {i} [{rx.hexs(ev['bytes'])}] ({lab}, device address {ev['dev']}), "
                     f"window cycles {lo}..{hi - 1}")
+        if exp is None or exp[0] == "token":
+            for t in range(lo, hi):
+                if trace[t].frame != cur_frame:
+                    return fail(f"{what()}: frame number changed from {cur_frame} to {trace[t].frame} at cycle {t} "
+                                f"without a well-formed SOF", signature="frame-changed-without-sof"), labels, 0, 0
+        else:
+            cur_frame = exp[1]
         if exp is None:
             if lab in ("token-foreign", "token-badcrc", "token-badlen", "badpid"):
                 n_near += 1
@@ -142,7 +150,7 @@ def _event_strategy():
 
 class TokenHistories(Sub):
     name = "histories"
-    budget = {"quick": 12000, "thorough": 300000}
+    budget = {"quick": 8000, "thorough": 300000}
     rule = ("histories of 1..30 packets drawn by construction from: valid own-address token (4 PIDs), foreign-address "
             "token, SOF, wrong check nibble, 1-5 flipped bits in the 16-bit token word, truncated to 1/2 bytes, "
             "over-long, data/handshake/special-PID/garbage/aborted packets, random 16-bit word; per-packet device "
@@ -179,23 +187,33 @@ class TokenExhaustive(Sub):
     budget = {"quick": 0, "thorough": 0}
     exhaustive = True
     CHUNK = 128
-    rule = ("enumeration: every 3-byte packet PID in {OUT,IN,SETUP,PING,SOF} x every 16-bit word (5 x 65536 packets, i.e. all "
-            "2^11 payloads with every possible CRC5 field) with the device address equal to the word's address field, "
-            "plus every CRC-valid token word x 4 PIDs with the device address differing in one bit (bit index rotates); "
-            "expected event from the bit-serial CRC5 reference; a case (128 packets) is non-trivial when it contains "
-            "both accepted and rejected packets")
+    FULL_PIDS = (1, 4)            # indices into TOKENISH: IN and SOF get every 16-bit word
+    TIERS = ("quick", "thorough")
+    rule = ("enumeration: every 3-byte packet with PID IN or SOF x every 16-bit word (2 x 65536 packets, i.e. all 2^11 "
+            "payloads with every possible CRC5 field) and every CRC-valid word for OUT/SETUP/PING, device address equal to "
+            "the word's address field; plus every CRC-valid token word x 4 PIDs with the device address differing in one "
+            "bit (bit index rotates); expected event from the bit-serial CRC5 reference; a case (128 packets) is "
+            "non-trivial when it contains both accepted and rejected packets")
 
     def setup(self):
         self.h = _harness()
 
     def enumerate(self, tier):
+        if tier not in self.TIERS:
+            return None
+
         def gen():
             for pi in range(5):
-                for base in range(0, 0x10000, self.CHUNK):
-                    yield dict(mode="eq", pid=pi, base=base)
-            for pi in range(4):
-                for base in range(0, 0x800, self.CHUNK):
-                    yield dict(mode="neq", pid=pi, base=base)
+                if pi in self.FULL_PIDS:
+                    for base in range(0, 0x10000, self.CHUNK):
+                        yield dict(mode="eq", pid=pi, base=base)
+                elif self.FULL_PIDS == (1, 4):
+                    for base in range(0, 0x800, self.CHUNK):
+                        yield dict(mode="valid", pid=pi, base=base)
+            if self.FULL_PIDS == (1, 4):
+                for pi in range(4):
+                    for base in range(0, 0x800, self.CHUNK):
+                        yield dict(mode="neq", pid=pi, base=base)
         return gen()
 
     def strategy(self):
@@ -211,7 +229,7 @@ class TokenExhaustive(Sub):
             else:
                 v = case["base"] + k
                 w = v | (usb2_crc5(v) << 11)
-                dev = (v & 0x7F) ^ (1 << (v % 7))
+                dev = (v & 0x7F) ^ ((1 << (v % 7)) if case["mode"] == "neq" else 0)
             evs.append(dict(bytes=[usb2.pid_byte(pid), w & 0xFF, w >> 8], dev=dev, lead=1, gaps=[0],
                             trail=k & 1, idle=2))
         trace, spans = run_events(self.h, evs)
@@ -222,4 +240,12 @@ class TokenExhaustive(Sub):
         return Result(ok=True, nontrivial=0 < n_ok < len(evs), labels=tuple(sorted(labels)) + (case["mode"],))
 
 
-SUBS = [TokenHistories(), TokenExhaustive()]
+class TokenExhaustiveRest(TokenExhaustive):
+    name = "exhaustive-rest"
+    FULL_PIDS = (0, 2, 3)         # OUT, SETUP, PING: every 16-bit word as well (thorough tier only)
+    TIERS = ("thorough",)
+    rule = ("thorough tier only: every 3-byte packet with PID OUT, SETUP or PING x every 16-bit word (3 x 65536 packets), "
+            "device address equal to the word's address field; same oracle as 'exhaustive'")
+
+
+SUBS = [TokenHistories(), TokenExhaustive(), TokenExhaustiveRest()]
